@@ -99,6 +99,19 @@ def recorded_solve(fn, l, target, guess):
     return out, steps
 
 
+def lattice_fingerprint(l):
+    """everything a caller can read off the lattice that a solver has no business changing (plaquettes are computed by then)"""
+    import hashlib
+    h = hashlib.sha1()
+    for a in (l.vertices.positions, l.edges.indices, l.edges.crossing, l.edges.vectors):
+        h.update(np.ascontiguousarray(a).tobytes())
+    for p in l.plaquettes:
+        for a in (p.vertices, p.edges, p.directions, p.center):
+            h.update(np.ascontiguousarray(a).tobytes())
+    h.update(np.ascontiguousarray(l.edges.adjacent_plaquettes).tobytes())
+    return h.hexdigest()
+
+
 def flux_fn(variant):
     return ff.fluxes_from_ujk if variant == "new" else ff.fluxes_from_bonds
 
@@ -259,6 +272,7 @@ def run(ctx):
                          guess=None if guess is None else guess.tolist(), **kw))
                 tb = None if target is None else target.tobytes()
                 gb = None if guess is None else guess.tobytes()
+                lfp = lattice_fingerprint(l)
                 import warnings
                 with warnings.catch_warnings():
                     warnings.simplefilter("ignore")
@@ -266,6 +280,8 @@ def run(ctx):
                     ok = judge(ctx, name, l, variant, target, guess, out, rep)
                 if (target is not None and target.tobytes() != tb) or (guess is not None and guess.tobytes() != gb):
                     rep("solver modified its arguments"); ok = False
+                if lattice_fingerprint(l) != lfp:
+                    rep("solver modified the lattice it was given (positions / edges / crossings / plaquette data)"); ok = False
                 t_eff = target if target is not None else (np.full(F, -1, dtype=np.int8) if variant == "new" else np.ones(F, dtype=np.int8))
                 g_eff = guess if guess is not None else np.ones(l.n_edges, dtype=np.int8)
                 with warnings.catch_warnings():
